@@ -356,7 +356,7 @@ func scenariosC09() []c09scenario {
 		{name: "fresh-join", victim: lcSpec{joinAfter: 1500 * time.Millisecond}},
 		{name: "join-with-observe", victim: lcSpec{joinAfter: 1500 * time.Millisecond, observe: 2 * time.Second}},
 		// heartbeat period shorter than join-after: a process restarted while JOINING heartbeats as PENDING before it joins again
-		{name: "join-with-observe-fast-heartbeat", victim: lcSpec{joinAfter: 3 * time.Second, observe: 2 * time.Second, heartbeat: time.Second}},
+		{name: "join-with-observe-fast-heartbeat", victim: lcSpec{joinAfter: 2750 * time.Millisecond, observe: 1750 * time.Millisecond, heartbeat: 2 * time.Second}}, // periods chosen so that no two timers of the loop fall due together
 		{name: "join-with-tokens-file", victim: lcSpec{joinAfter: 1500 * time.Millisecond, tokensFile: tokensPath}},
 		{name: "restart-from-tokens-file", victim: lcSpec{joinAfter: 1500 * time.Millisecond, tokensFile: tokensPath}, fileStart: []uint32{11, 12}},
 		{name: "leave-unregister", victim: lcSpec{unregister: true}, stopAt: 6500 * time.Millisecond},
@@ -401,10 +401,16 @@ func TestC09Crash(t *testing.T) {
 				faults = append(faults, fault{kind: "wipe-after", k: k})
 			}
 		}
-		// store faults hit the running (ACTIVE) lifecycler: every window of its later CAS attempts
+		// store faults hit the running (ACTIVE) lifecycler: every window of its later CAS attempts (and of the state change that publishes ACTIVE after an observe period)
 		// (a failing CAS during the initial registration or the join makes the service fail by design)
 		if base.activeAttempts > 0 {
-			for a := base.activeAttempts + 1; a <= base.activeAttempts+4; a++ {
+			first := base.activeAttempts + 1
+			if !sc.victim.basic && sc.victim.observe > 0 {
+				// with an observe period the write that publishes ACTIVE is a plain state change whose failure the
+				// lifecycler survives (it stays ACTIVE locally and the next heartbeat publishes it): a fault may hit it too
+				first = base.activeAttempts
+			}
+			for a := first; a <= base.activeAttempts+4; a++ {
 				for b := a + 1; b <= a+4; b++ {
 					faults = append(faults, fault{kind: "cas-window", k: a, b: b})
 				}
